@@ -323,10 +323,38 @@ func (wk *worker) runCase(c *Case) (res CaseResult) {
 	}
 	ad, ae, e1 := canonResponse(run.body)
 	sd, se, e2 := canonResponse(ref.body)
+	cancelled := w.cn.fired.Load()
+	if c.cancels() {
+		count("cancel:" + c.CancelSrc + ":" + fmt.Sprintf("at-call=%v,%s", c.CancelAt > 0, c.CancelMode))
+		if cancelled {
+			count("cancel-fired-while-the-request-was-executing")
+			if abandoned+nChained+nGo > 0 {
+				count("cancel-fired-with-go-tasks-in-the-request")
+			}
+		} else {
+			count("cancel-point-not-reached")
+		}
+		w.cn.mu.Lock()
+		notes := append([]string{}, w.cn.notes...)
+		w.cn.mu.Unlock()
+		for _, n := range notes {
+			if strings.HasPrefix(n, "harness:") {
+				fail("harness", "", "%s", n)
+			} else {
+				count(n)
+			}
+		}
+	}
 	// While F-02a is in the tree, an error that reaches an asynchronously resolved non-null field (its
 	// own, or one propagating up from its selection set) is dropped and leaves a blank key behind.
 	skipResp := wk.f02aPresent && (w.f02a || (w.asyncNonNull && strings.Contains(ad, `"":null`)))
-	if skipResp {
+	if cancelled {
+		// the executor fails what it reaches after the cancellation: every value that is present must
+		// be the one produced for it
+		if msg := cancelledResponse(run, ref, c.WS); msg != "" {
+			fail("property:response", "", "%s (got %s, all-synchronous %s)", msg, run.body, ref.body)
+		}
+	} else if skipResp {
 		count("response-compare-skipped(F-02a in tree, async non-null failure)")
 	} else if e1 != nil || e2 != nil {
 		fail("property:response", "", "unparsable response: %v %v", e1, e2)
@@ -340,7 +368,7 @@ func (wk *worker) runCase(c *Case) (res CaseResult) {
 	}
 
 	// ---- apifu's own node / nodes fields
-	if !c.WS && len(c.Tree) > 0 {
+	if !c.WS && len(c.Tree) > 0 && !cancelled {
 		if msg := nodeOracle(c.Tree, run.body); msg != "" {
 			fail("property:response", "", "%s (response %s)", msg, run.body)
 		} else if msg := nodeOracle(c.Tree, ref.body); msg != "" {
